@@ -171,6 +171,7 @@ type Engine struct {
 	cellName  map[*Value]string
 	curSite   string
 	numStr    map[string]*Term
+	randDraws [][]*Term
 }
 
 func NewEngine(p *Program, job *Job, stats *SolverStats, known map[string]map[string]bool, seed int64) (*Engine, error) {
@@ -300,6 +301,7 @@ func (e *Engine) runPath(fn *ssa.Function) (cont bool) {
 	e.ranges = map[string][2]int64{}
 	e.cellName = map[*Value]string{}
 	e.numStr = map[string]*Term{}
+	e.randDraws = nil
 	e.th = nil
 	e.clock = e.st.Const(64, 1<<60)
 	if e.solver != nil {
